@@ -215,6 +215,9 @@ func mergeCtx(rr *runResult, c *Ctx) {
 		}
 	}
 	rr.notes = append(rr.notes, c.notes...)
+	for _, bl := range c.blind {
+		rr.blind = append(rr.blind, fmt.Sprintf("%s (config %q)", bl, c.Config))
+	}
 	for _, a := range c.assume {
 		if !containsStr(rr.assume, a) {
 			rr.assume = append(rr.assume, a)
